@@ -94,7 +94,10 @@ var defaultExecFuncs = map[string]bool{
 	"errors.New":                       true,
 	"(*errors.errorString).Error":      true,
 	"errors.Unwrap":                    true,
-	"(*sync.Once).Do":                  false,
+	// pure Go over the modelled Type methods (Kind, NumField, Field, Elem)
+	"reflect.VisibleFields":               true,
+	"(*reflect.visibleFieldsWalker).walk": true,
+	"(*sync.Once).Do":                     false,
 }
 
 func (e *Engine) pkgExecutable(path string) bool {
